@@ -18,7 +18,7 @@ From Coq Require Import List NArith ZArith Bool Lia.
 From Coq.Strings Require Import Byte.
 From SP Require Import Bytes Params Msgpack Crypto Errors Nonce Packets Verify Decrypt Signcrypt Armor
   PanicSites PanicModel ToyCrypto NoPanicProofs.
-From SP Require Import GoLang GoAst GoAstProofs.
+From SP Require Import GoLang GoLang2 GoAst GoAstProofs GoAstProofs2 GoAstProofs3.
 From Coq Require String.
 Import String.StringSyntax.
 Import ListNotations.
@@ -93,7 +93,25 @@ Theorem C15_source_checkChunkState (v : version) (l : nat) (i : N) (f : bool) :
   = m_result1 (check_chunk_state v l i f).
 Proof. exact (go_checkChunkState v l i f). Qed.
 
+(* the two fixed-length key conversions on the receive paths (payload key after unboxing, ephemeral key):
+   for EVERY byte string they return the error value unless the length is exactly 32 — the array
+   conversion that would panic on any other length is never reached *)
+Theorem C15_source_symmetricKeyFromSlice (c : crypto) (b : bytes) :
+  fst (run_func2 (ext_prims c) f_saltpack_symmetricKeyFromSlice [VBytes b])
+  = if Nat.eqb (List.length b) 32 then ORet [VBytes b; VNil] else ORet [VNil; VErr "ErrBadSymmetricKey" []].
+Proof.
+  rewrite (go_symmetricKeyFromSlice c b). unfold sym_key.
+  destruct (Nat.eqb (List.length b) 32); reflexivity.
+Qed.
+
+Theorem C15_source_rawBoxKeyFromSlice (c : crypto) (b : bytes) :
+  fst (run_func2 (ext_prims c) f_saltpack_rawBoxKeyFromSlice [VBytes b])
+  = if Nat.eqb (List.length b) 32 then ORet [VBytes b; VNil] else ORet [VNil; VErr "ErrBadBoxKey" []].
+Proof. exact (go_rawBoxKeyFromSlice c b). Qed.
+
 Print Assumptions C15_source_checkChunkState.
+Print Assumptions C15_source_symmetricKeyFromSlice.
+Print Assumptions C15_source_rawBoxKeyFromSlice.
 Print Assumptions C15_inventory_covered.
 Print Assumptions C15_shipped_validators_ok.
 Print Assumptions C15_verify_stream_no_panic.
